@@ -891,6 +891,11 @@ def check(program, rep):
     rep.guard("C09-R3", r3_ids, program, folder, rep)
     rep.guard("C09-R4", r4_retry, program, rep)
     rep.guard("C09-R5", r5_link, program, rep)
+    # the per-core read-back of load_application reads cpu_state through
+    # read_vcpu_struct_field: the address must be that core's own block
+    # (C07-R4: vcpu_base of the chip + size * p, computed per call)
+    from . import C07
+    rep.guard("C07-R4", C07.r4_addresses, program, folder, rep)
     # arguments handed to package functions under the wrong name / same-
     # named optional parameters not passed on (NAMELINK, DESIGN.md 9.13)
     from .. import namelink as _nl
